@@ -62,7 +62,7 @@ func c19NotTemplated(c *Check, a *Anchors) {
 			c.Errorf("forwarded-not-templated: no Set site for %s", what)
 		}
 	}
-	site(c.P.Func(PkgMain, "", "run"), "CLI_ARGS", func(call *ast.CallExpr) bool { return exprStr(call.Args[0]) == `"CLI_ARGS"` })
+	site(c.P.Func(PkgMain, "", "run"), "CLI_ARGS", func(call *ast.CallExpr) bool { return constIs(c.P.Func(PkgMain, "", "run").Info(), call.Args[0], `"CLI_ARGS"`) })
 	site(c.P.Func(PkgArgs, "", "Parse"), "NAME=value", func(call *ast.CallExpr) bool { return true })
 }
 
@@ -92,39 +92,102 @@ func c19CliArgsQuoted(c *Check, a *Anchors) {
 	c.Fn(fb)
 	info := fb.Info()
 	name := fnDisplay(fb)
+	// the quoting loop: in args.Get itself (ranging over args[doubleDashPos:]) or in a helper that receives that slice
 	var loop *ast.RangeStmt
+	var loopFB *FuncBody
+	var helperCall *ast.CallExpr
 	inspectBody(fb.Body, func(nd ast.Node) bool {
 		if r, ok := nd.(*ast.RangeStmt); ok {
 			if _, isSlice := ast.Unparen(r.X).(*ast.SliceExpr); isSlice {
-				loop = r
+				loop, loopFB = r, fb
 			}
 		}
 		return true
 	})
 	if loop == nil {
-		c.Bad("cli-args-quoted", "loop@"+name, fb.Decl.Pos(), "args.Get no longer ranges over args[doubleDashPos:]")
+		for _, call := range callsIn(fb, false) {
+			fn, ok := callee(info, call).(*types.Func)
+			if !ok {
+				continue
+			}
+			h := c.P.DeclOf(fn)
+			if h == nil || h.Pkg != fb.Pkg || len(call.Args) != 1 {
+				continue
+			}
+			if _, isSlice := ast.Unparen(call.Args[0]).(*ast.SliceExpr); !isSlice {
+				continue
+			}
+			var param *types.Var
+			if h.Type.Params != nil && len(h.Type.Params.List) == 1 && len(h.Type.Params.List[0].Names) == 1 {
+				param, _ = h.Info().Defs[h.Type.Params.List[0].Names[0]].(*types.Var)
+			}
+			inspectBody(h.Body, func(nd ast.Node) bool {
+				if r, ok := nd.(*ast.RangeStmt); ok && param != nil && varOf(h.Info(), r.X) == param {
+					loop, loopFB, helperCall = r, h, call
+				}
+				return true
+			})
+		}
+	}
+	if loop == nil {
+		c.Bad("cli-args-quoted", "loop@"+name, fb.Decl.Pos(), "args.Get no longer ranges (itself or through a helper) over args[doubleDashPos:]")
 		return
 	}
-	item := varOf(info, loop.Value)
+	c.Fn(loopFB)
+	linfo := loopFB.Info()
+	item := varOf(linfo, loop.Value)
 	var quotedVar, acc *types.Var
 	quoteOK, lang := false, ""
 	for _, s := range loop.Body.List {
 		if as, ok := s.(*ast.AssignStmt); ok && len(as.Rhs) == 1 {
 			if call, ok := ast.Unparen(as.Rhs[0]).(*ast.CallExpr); ok {
-				if okq, l := isQuoteBash(info, call); isFunc(callee(info, call), shSyntax, "", "Quote") {
+				if okq, l := isQuoteBash(linfo, call); isFunc(callee(linfo, call), shSyntax, "", "Quote") {
 					lang = l
-					if okq && varOf(info, call.Args[0]) == item && item != nil {
+					if okq && varOf(linfo, call.Args[0]) == item && item != nil {
 						quoteOK = true
-						quotedVar = varOf(info, as.Lhs[0])
+						quotedVar = varOf(linfo, as.Lhs[0])
 					}
 				}
-				if isBuiltin(info, call, "append") && len(call.Args) == 2 && quotedVar != nil && varOf(info, call.Args[1]) == quotedVar && varOf(info, call.Args[0]) == varOf(info, as.Lhs[0]) {
-					acc = varOf(info, as.Lhs[0])
+				if isBuiltin(linfo, call, "append") && len(call.Args) == 2 && quotedVar != nil && varOf(linfo, call.Args[1]) == quotedVar && varOf(linfo, call.Args[0]) == varOf(linfo, as.Lhs[0]) {
+					acc = varOf(linfo, as.Lhs[0])
 				}
 			}
 		}
 	}
 	c.Decide(quoteOK, "cli-args-quoted", "each-arg-quoted@"+name, loop.Pos(), "syntax.Quote(arg, syntax.LangBash) on every argument", "the arguments after `--` are not each passed through syntax.Quote(arg, syntax.LangBash) (language: "+lang+"): an argument with spaces, quotes or control characters is split, re-interpreted or rejected")
+	// the accumulated slice is what comes back as the second result of args.Get
+	if helperCall != nil {
+		// helper must return its accumulator; args.Get must return the helper's result as second result
+		hret := acc != nil
+		for _, r := range returnsOf(loopFB.Body) {
+			if len(r.Results) >= 1 && r.Pos() > loop.End() && varOf(linfo, r.Results[0]) != acc {
+				hret = false
+			}
+		}
+		var resVar *types.Var
+		inspectBody(fb.Body, func(nd ast.Node) bool {
+			if as, ok := nd.(*ast.AssignStmt); ok && len(as.Rhs) == 1 && ast.Unparen(as.Rhs[0]) == ast.Expr(helperCall) {
+				resVar = varOf(info, as.Lhs[0])
+			}
+			return true
+		})
+		retOK, firstRaw, n := hret && resVar != nil, false, 0
+		for _, r := range returnsOf(fb.Body) {
+			if len(r.Results) != 3 || !isNilLit(info, r.Results[2]) || r.Pos() < helperCall.End() {
+				continue
+			}
+			n++
+			if varOf(info, r.Results[1]) != resVar {
+				retOK = false
+			}
+			if _, isSlice := ast.Unparen(r.Results[0]).(*ast.SliceExpr); isSlice {
+				firstRaw = true
+			}
+		}
+		c.Decide(retOK && n > 0, "cli-args-quoted", "returns-quoted-in-order@"+name, loop.Pos(), "second result is the helper's slice of quoted arguments, appended in order", "args.Get does not return, as its second result, the slice the quoted arguments were appended to in order")
+		c.Decide(firstRaw, "cli-args-quoted", "first-result-unquoted@"+name, loop.Pos(), "first result is args[:doubleDashPos], unquoted", "the positional arguments (first result) are no longer the raw args before `--`")
+		return
+	}
 	retOK, firstRaw := acc != nil, false
 	n := 0
 	for _, r := range returnsOf(fb.Body) {
@@ -166,7 +229,7 @@ func c19CliArgsString(c *Check, a *Anchors) {
 	found := false
 	inspectBody(run.Body, func(nd ast.Node) bool {
 		call, ok := nd.(*ast.CallExpr)
-		if !ok || !isFunc(callee(info, call), PkgAst, "Vars", "Set") || len(call.Args) != 2 || exprStr(call.Args[0]) != `"CLI_ARGS"` {
+		if !ok || !isFunc(callee(info, call), PkgAst, "Vars", "Set") || len(call.Args) != 2 || !constIs(info, call.Args[0], `"CLI_ARGS"`) {
 			return true
 		}
 		found = true
@@ -185,7 +248,7 @@ func c19CliArgsString(c *Check, a *Anchors) {
 				isString = true
 			}
 			if jc, ok := ast.Unparen(val).(*ast.CallExpr); ok && isFunc(callee(info, jc), "strings", "", "Join") && len(jc.Args) == 2 {
-				joined = quoted != nil && varOf(info, jc.Args[0]) == quoted && exprStr(jc.Args[1]) == `" "`
+				joined = quoted != nil && varOf(info, jc.Args[0]) == quoted && constIs(info, jc.Args[1], `" "`)
 			}
 		}
 		c.Decide(isString && joined, "cli-args-is-string", "CLI_ARGS@"+fnDisplay(run), call.Pos(), `string: strings.Join(quotedArgs, " ")`,
@@ -203,7 +266,7 @@ func c19ShellQuote(c *Check, a *Anchors) {
 	for _, fb := range c.P.BodiesIn(PkgTemplater) {
 		if fb.Decl != nil && fb.Decl.Name.Name == "init" {
 			inspectBody(fb.Body, func(nd ast.Node) bool {
-				if bl, ok := nd.(*ast.BasicLit); ok && bl.Value == `"shellQuote"` {
+				if e, ok := nd.(ast.Expr); ok && constIs(fb.Info(), e, `"shellQuote"`) {
 					initFn = fb
 				}
 				return true
@@ -219,7 +282,7 @@ func c19ShellQuote(c *Check, a *Anchors) {
 	okQuote, lang := false, ""
 	inspectBody(initFn.Body, func(nd ast.Node) bool {
 		kv, ok := nd.(*ast.KeyValueExpr)
-		if !ok || exprStr(kv.Key) != `"shellQuote"` {
+		if !ok || !constIs(info, kv.Key, `"shellQuote"`) {
 			return true
 		}
 		lit, ok := ast.Unparen(kv.Value).(*ast.FuncLit)
@@ -244,7 +307,7 @@ func c19ShellQuote(c *Check, a *Anchors) {
 		if as, ok := nd.(*ast.AssignStmt); ok && len(as.Lhs) == 1 && len(as.Rhs) == 1 {
 			l, lok := ast.Unparen(as.Lhs[0]).(*ast.IndexExpr)
 			r, rok := ast.Unparen(as.Rhs[0]).(*ast.IndexExpr)
-			if lok && rok && exprStr(l.Index) == `"q"` && exprStr(r.Index) == `"shellQuote"` && varOf(info, l.X) == varOf(info, r.X) {
+			if lok && rok && constIs(info, l.Index, `"q"`) && constIs(info, r.Index, `"shellQuote"`) && varOf(info, l.X) == varOf(info, r.X) {
 				alias = true
 			}
 		}
@@ -266,14 +329,14 @@ func c19SplitVar(c *Check, a *Anchors) {
 	info := sv.Info()
 	okSplit := false
 	for _, call := range callsIn(sv, false) {
-		if isFunc(callee(info, call), "strings", "", "SplitN") && len(call.Args) == 3 && exprStr(call.Args[1]) == `"="` && exprStr(call.Args[2]) == "2" {
+		if isFunc(callee(info, call), "strings", "", "SplitN") && len(call.Args) == 3 && constIs(info, call.Args[1], `"="`) && constIs(info, call.Args[2], "2") {
 			okSplit = true
 		}
 	}
 	c.Decide(okSplit, "splitvar", "SplitN-first-equals@"+fnDisplay(sv), sv.Decl.Pos(), `strings.SplitN(s, "=", 2)`, "the variable splitter no longer uses strings.SplitN(s, \"=\", 2): a value containing '=' is truncated")
 	pinfo := parse.Info()
 	f := NewFlow(c.P, parse, func(call *ast.CallExpr, obj types.Object) string {
-		if isFunc(obj, "strings", "", "Contains") && len(call.Args) == 2 && exprStr(call.Args[1]) == `"="` {
+		if isFunc(obj, "strings", "", "Contains") && len(call.Args) == 2 && constIs(pinfo, call.Args[1], `"="`) {
 			return "has-equals"
 		}
 		if a.is(obj, sv) {
